@@ -36,6 +36,13 @@ define_ops! {
     sub_assign_r = |a: U, b: U| { a -= &b; a };
     sum_v = |s: US| s.iter().copied().sum::<Uint<B, L>>();
     sum_r = |s: US| s.iter().sum::<Uint<B, L>>();
+    // the same through iterators that report no useful size_hint: (0, None) and (0, Some(n))
+    sum_v_nh = |s: US| NoHint(s.iter().copied()).sum::<Uint<B, L>>();
+    sum_r_nh = |s: US| NoHint(s.iter()).sum::<Uint<B, L>>();
+    sum_v_f = |s: US| s.iter().copied().filter(|_| true).sum::<Uint<B, L>>();
+    // both operands are the SAME object
+    add_alias = |a: U| &a + &a;
+    sub_alias = |a: U| &a - &a;
     // ---- C02
     overflowing_mul = |a: U, b: U| a.overflowing_mul(b);
     checked_mul = |a: U, b: U| a.checked_mul(b);
@@ -50,6 +57,10 @@ define_ops! {
     inv_ring = |a: U| a.inv_ring();
     product_v = |s: US| s.iter().copied().product::<Uint<B, L>>();
     product_r = |s: US| s.iter().product::<Uint<B, L>>();
+    product_v_nh = |s: US| NoHint(s.iter().copied()).product::<Uint<B, L>>();
+    product_r_nh = |s: US| NoHint(s.iter()).product::<Uint<B, L>>();
+    product_v_f = |s: US| s.iter().copied().filter(|_| true).product::<Uint<B, L>>();
+    mul_alias = |a: U| &a * &a;
     // ---- C03
     div_rem = |a: U, b: U| a.div_rem(b);
     div_vv = |a: U, b: U| a / b;
@@ -64,6 +75,8 @@ define_ops! {
     rem_rr = |a: U, b: U| &a % &b;
     rem_assign_v = |a: U, b: U| { a %= b; a };
     rem_assign_r = |a: U, b: U| { a %= &b; a };
+    div_alias = |a: U| &a / &a;
+    rem_alias = |a: U| &a % &a;
     wrapping_div = |a: U, b: U| a.wrapping_div(b);
     wrapping_rem = |a: U, b: U| a.wrapping_rem(b);
     checked_div = |a: U, b: U| a.checked_div(b);
@@ -201,7 +214,13 @@ fn model(bits: usize, op: Op, args: &[V]) -> Expect {
     let a = || big(args[0].limbs());
     let b = || big(args[1].limbs());
     let c = || big(args[2].limbs());
+    let twice = || [args[0].clone(), args[0].clone()];
     match op {
+        add_alias => model(bits, add_rr, &twice()),
+        sub_alias => model(bits, sub_rr, &twice()),
+        mul_alias => model(bits, mul_rr, &twice()),
+        div_alias => model(bits, div_rr, &twice()).nt(true),
+        rem_alias => model(bits, rem_rr, &twice()).nt(true),
         overflowing_add | checked_add | saturating_add | wrapping_add | add_vv | add_vr | add_rv | add_rr | add_assign_v | add_assign_r => {
             let s = a() + b();
             let o = s >= m;
@@ -239,7 +258,7 @@ fn model(bits: usize, op: Op, args: &[V]) -> Expect {
             }
             .nt(o)
         }
-        sum_v | sum_r => {
+        sum_v | sum_r | sum_v_nh | sum_r_nh | sum_v_f => {
             let mut s = BigUint::zero();
             for x in args[0].as_l() {
                 s += big(x.limbs());
@@ -268,7 +287,7 @@ fn model(bits: usize, op: Op, args: &[V]) -> Expect {
                 is(V::None)
             }
         }
-        product_v | product_r => {
+        product_v | product_r | product_v_nh | product_r_nh | product_v_f => {
             let mut s = BigUint::one();
             for x in args[0].as_l() {
                 s *= big(x.limbs());
@@ -494,6 +513,13 @@ fn small_max(r: &Runner, quick: usize, thorough: usize) -> usize {
         quick
     }
 }
+fn big_widths() -> &'static [usize] {
+    if SWEEP {
+        &[]
+    } else {
+        W_BIG
+    }
+}
 fn edge_widths(r: &Runner) -> Vec<usize> {
     if SWEEP {
         return WIDTHS.iter().copied().filter(|w| *w > 12).collect();
@@ -510,7 +536,13 @@ const C01_BIN: &[Op] = &[
     Op::wrapping_sub, Op::abs_diff, Op::add_vv, Op::add_vr, Op::add_rv, Op::add_rr, Op::add_assign_v, Op::add_assign_r, Op::sub_vv, Op::sub_vr,
     Op::sub_rv, Op::sub_rr, Op::sub_assign_v, Op::sub_assign_r,
 ];
-const C01_UN: &[Op] = &[Op::overflowing_neg, Op::checked_neg, Op::wrapping_neg, Op::neg_v, Op::neg_r];
+const C01_UN: &[Op] = &[Op::overflowing_neg, Op::checked_neg, Op::wrapping_neg, Op::neg_v, Op::neg_r, Op::add_alias, Op::sub_alias];
+const SUMS: &[Op] = &[Op::sum_v, Op::sum_r, Op::sum_v_nh, Op::sum_r_nh, Op::sum_v_f];
+const PRODUCTS: &[Op] = &[Op::product_v, Op::product_r, Op::product_v_nh, Op::product_r_nh, Op::product_v_f];
+const C02_UN: &[Op] = &[Op::inv_ring, Op::mul_alias];
+const C03_UN: &[Op] = &[Op::div_alias, Op::rem_alias];
+/// widths beyond the edge grid: 19 limbs (an odd limb count above 16) and 65 limbs (beyond the largest alias, U4096)
+const W_BIG: &[usize] = &[1216, 4160];
 const C02_BIN: &[Op] = &[
     Op::overflowing_mul, Op::checked_mul, Op::saturating_mul, Op::wrapping_mul, Op::mul_vv, Op::mul_vr, Op::mul_rv, Op::mul_rr, Op::mul_assign_v,
     Op::mul_assign_r,
@@ -569,15 +601,21 @@ fn c01(r: &Runner) {
         unary(r, &d, bits, &u, C01_UN);
         related_pairs(r, bits, C01_BIN);
     }
+    for &bits in big_widths() {
+        let (u, d) = pick(bits, if r.is_thorough() { 900 } else { 300 }, &[]);
+        pairs(r, &format!("({d})^2"), bits, &u, &u, C01_BIN);
+        let (u, d) = pick(bits, 4000, &[]);
+        unary(r, &d, bits, &u, C01_UN);
+    }
     for bits in 0..=5usize {
         let u = small_all(bits);
         if u.len() <= 16 || r.is_thorough() {
-            run_seqs(r, &format!("S({bits})^(0..3) sums"), bits, &u, &[Op::sum_v, Op::sum_r]);
+            run_seqs(r, &format!("S({bits})^(0..3) sums"), bits, &u, SUMS);
         }
     }
     for bits in [64usize, 65, 128, 129] {
         let u = limb_product(bits, A3).unwrap();
-        run_seqs(r, &format!("L({bits};A3)^(0..3) sums"), bits, &u, &[Op::sum_v, Op::sum_r]);
+        run_seqs(r, &format!("L({bits};A3)^(0..3) sums"), bits, &u, SUMS);
     }
     // longer sequences (a carry can be needed several times at the same position): all sequences of length 0..=7
     // over {0, 1, 2^64-1 in every limb, MAX}
@@ -601,8 +639,9 @@ fn c01(r: &Runner) {
         }
         r.universe(&format!("{{0,1,MAX/2,MAX}}^(1..7) sums ({} sequences)", seq.len()), bits, seq.len(), |i, l| {
             l.states(1);
-            exec(l, bits, Op::sum_v, &[seq[i].clone()]);
-            exec(l, bits, Op::sum_r, &[seq[i].clone()]);
+            for &op in SUMS {
+                exec(l, bits, op, &[seq[i].clone()]);
+            }
         });
     }
 }
@@ -615,23 +654,29 @@ fn c02(r: &Runner) {
     }
     for bits in [0usize, 1, 2, 3, 4, 5, 6, 7, 8, 9, 10, 11, 12, 16] {
         let u = small_all(bits);
-        unary(r, &format!("S({bits})"), bits, &u, &[Op::inv_ring]);
+        unary(r, &format!("S({bits})"), bits, &u, C02_UN);
     }
     for bits in edge_widths(r) {
         let (u, d) = bin_universe(r, bits);
         pairs(r, &format!("({d})^2"), bits, &u, &u, C02_BIN);
-        unary(r, &d, bits, &u, &[Op::inv_ring]);
+        unary(r, &d, bits, &u, C02_UN);
         related_pairs(r, bits, C02_BIN);
+    }
+    for &bits in big_widths() {
+        let (u, d) = pick(bits, if r.is_thorough() { 300 } else { 120 }, &[]);
+        pairs(r, &format!("({d})^2"), bits, &u, &u, C02_BIN);
+        let (u, d) = pick(bits, if r.is_thorough() { 4000 } else { 1200 }, &[]);
+        unary(r, &d, bits, &u, C02_UN);
     }
     for bits in 0..=5usize {
         let u = small_all(bits);
         if u.len() <= 16 || r.is_thorough() {
-            run_seqs(r, &format!("S({bits})^(0..3) products"), bits, &u, &[Op::product_v, Op::product_r]);
+            run_seqs(r, &format!("S({bits})^(0..3) products"), bits, &u, PRODUCTS);
         }
     }
     for bits in [64usize, 65, 128, 129] {
         let u = limb_product(bits, A3).unwrap();
-        run_seqs(r, &format!("L({bits};A3)^(0..3) products"), bits, &u, &[Op::product_v, Op::product_r]);
+        run_seqs(r, &format!("L({bits};A3)^(0..3) products"), bits, &u, PRODUCTS);
     }
     if !SWEEP {
         widening(r);
@@ -722,11 +767,29 @@ fn c03(r: &Runner) {
     for bits in 0..=small_max(r, 9, 11) {
         let u = small_all(bits);
         pairs(r, &format!("S({bits})^2"), bits, &u, &u, C03_BIN);
+        unary(r, &format!("S({bits})"), bits, &u, C03_UN);
     }
     for bits in edge_widths(r) {
         let (u, d) = bin_universe(r, bits);
         pairs(r, &format!("({d})^2"), bits, &u, &u, C03_BIN);
+        unary(r, &d, bits, &u, C03_UN);
         related_pairs(r, bits, C03_BIN);
+    }
+    for &bits in big_widths() {
+        let (u, d) = pick(bits, if r.is_thorough() { 300 } else { 100 }, &[]);
+        pairs(r, &format!("({d})^2"), bits, &u, &u, C03_CORE);
+        unary(r, &d, bits, &u, C03_UN);
+    }
+    // exact multiples of ordinary one-limb divisors whose limbs above the lowest are drawn from {0,1,g1,g2}
+    for bits in if SWEEP { vec![] } else { vec![128usize, 129, 192, 256, 257, 320, 512] } {
+        let em = exact_multiples(bits, ORDINARY_DIVISORS);
+        r.universe(&format!("exact multiples n = [solved, {{0,1,g1,g2}}..] of {} ordinary one-limb divisors, +-1", ORDINARY_DIVISORS.len()), bits, em.len(), |i, l| {
+            let args = [vu(&em[i].0), vu(&em[i].1)];
+            l.states(1);
+            for &op in C03_CORE {
+                exec(l, bits, op, &args);
+            }
+        });
     }
     // derived universe
     let wsv: Vec<usize> = if SWEEP { WIDTHS.iter().copied().filter(|w| *w >= 64).collect() } else if r.is_thorough() { vec![64, 65, 127, 128, 129, 191, 192, 193, 255, 256, 257, 320, 384, 512] } else { vec![128, 129, 192, 256, 257] };
